@@ -128,6 +128,15 @@ struct Builder {
          if (h == "sum") return lex.get_sum(w);
          return lex.get_function(lex.get_product(w), *ts[0]);
       }
+      if (h == "fnx") {
+         // (fnx RET THROWS PARAM...): a function type with an explicit exception specification
+         std::vector<const ipr::Type*> ts(x.n() - 2);
+         const ipr::Expr* th = nullptr;
+         each_operand(ts.size() + 1, [&](std::size_t i) { if (i == 1) th = &expr(x[2]); else ts[i == 0 ? 0 : i - 1] = &type(x[i == 0 ? 1 : i + 1]); });
+         impl::Warehouse<ipr::Type> w;
+         for (std::size_t i = 1; i < ts.size(); ++i) w.push_back(*ts[i]);
+         return lex.get_function(lex.get_product(w), *ts[0], *th);
+      }
       if (h == "ptm") { const ipr::Type* a = nullptr; const ipr::Type* b = nullptr;
          each_operand(2, [&](std::size_t i) { (i == 0 ? a : b) = &type(x[i + 1]); });
          return lex.get_ptr_to_member(*a, *b); }
